@@ -5,6 +5,7 @@ through public API (iteration callback, history, result), as plain JSON-able dat
 run_config(cfg) -> record (dict).  Deterministic for a given cfg (random, numpy and os.urandom are
 seeded the way the repository's own test fixture does it).
 """
+import contextlib
 import datetime
 import math
 import os
@@ -99,7 +100,7 @@ def make_rule(spec):
 # ----------------------------------------------------------------------------------------------
 class Metric:
     """kind: size | depth | plateau | neg_size | label (count of 'a' nodes) | balance
-    faults: {'by_index': {call_index: kind}, 'by_class': [modulus, residue, kind]}  kind in raise|none|nan
+    faults: {'by_index': {call_index: kind}, 'by_class': [modulus, residue, kind], 'all_after': [n, kind], 'by_size_over': [n, kind]}  kind in raise|none|nan
     Counts calls (in-process only)."""
 
     def __init__(self, kind, faults=None, log=None, primary=True):
@@ -129,6 +130,10 @@ class Metric:
         idx = self.calls
         self.calls += 1
         fault = None
+        if self.faults.get('reseed') is not None:
+            # a deterministic metric that fixes the global generators itself (a model fitted with a fixed seed)
+            random.seed(self.faults['reseed'])
+            np.random.seed(self.faults['reseed'])
         by_index = self.faults.get('by_index') or {}
         if str(idx) in by_index:
             fault = by_index[str(idx)]
@@ -141,6 +146,9 @@ class Metric:
         after = self.faults.get('all_after')
         if after is not None and idx >= after[0]:
             fault = after[1]
+        over = self.faults.get('by_size_over')
+        if over is not None and len(g.nodes) > over[0]:
+            fault = over[1]
         if self.log is not None and self.primary:
             self.log.append({'i': idx, 'id': g.descriptive_id, 'fault': fault})
         if fault == 'raise':
@@ -233,33 +241,44 @@ def ind_record(ind, verifier):
 
 
 def export_history(history, verifier):
-    inds = {}
+    """individuals are keyed by uid; should two DIFFERENT Individual objects carry one uid, the later ones get the
+    key '<uid>#dup<k>' (and the flag duplicate_object_for_uid) so that nothing recorded is lost from the export"""
+    inds, key_of, per_uid = {}, {}, {}
+
+    def key(obj):
+        k = key_of.get(id(obj))
+        if k is None:
+            n = per_uid.get(obj.uid, 0)
+            per_uid[obj.uid] = n + 1
+            k = obj.uid if n == 0 else '%s#dup%d' % (obj.uid, n)
+            key_of[id(obj)] = k
+        return k
 
     def visit(ind):
         stack = [ind]
         while stack:
             cur = stack.pop()
-            if cur.uid in inds and inds[cur.uid]['_obj'] is cur:
+            k = key(cur)
+            if k in inds:
                 continue
             rec = ind_record(cur, verifier)
-            rec['_obj'] = cur
-            if cur.uid in inds and inds[cur.uid]['_obj'] is not cur:
+            po = cur.parent_operator
+            rec['parents'] = [key(p) for p in po.parent_individuals] if po else []
+            if k != cur.uid:
                 rec['duplicate_object_for_uid'] = True
-            inds[cur.uid] = rec
+            inds[k] = rec
             stack.extend(cur.parents)
 
     gens = []
     for g in history.generations:
-        gens.append({'num': g.generation_num, 'label': g.label, 'members': [i.uid for i in g]})
+        gens.append({'num': g.generation_num, 'label': g.label, 'members': [key(i) for i in g]})
         for i in g:
             visit(i)
     arch = []
     for a in history.archive_history:
-        arch.append([i.uid for i in a])
+        arch.append([key(i) for i in a])
         for i in a:
             visit(i)
-    for r in inds.values():
-        r.pop('_obj', None)
     return {'generations': gens, 'archive': arch, 'individuals': inds}
 
 
@@ -272,7 +291,7 @@ def run_config(cfg, history_dir=None, callback_fault=None):
     t0 = time.time()
     tmp = None
     try:
-        with patch('os.urandom', urandom_mock):
+        with (contextlib.nullcontext() if cfg.get('real_urandom') else patch('os.urandom', urandom_mock)):
             random.seed(seed)
             np.random.seed(seed)
             if history_dir == 'tmp':
@@ -405,6 +424,62 @@ def failing_start_config(rng):
     kind = rng.choice(['raise', 'none', 'nan'])
     cfg['objective']['faults'] = {'by_index': {'0': kind}}
     cfg.update({'num_of_generations': rng.choice([3, 4, 6]), 'initial': rng.choice(['single', 'chain'])})
+    cfg.pop('rule', None)
+    return cfg
+
+
+def passthrough_config(rng, optimiser=None):
+    """low mutation / crossover probability, so that parents pass through reproduction unchanged, and an
+    evaluation backend that stops working after a few calls (or only works for small graphs): the offspring of a
+    generation are then mostly individuals already present in the previous population"""
+    cfg = random_config(rng, optimiser=optimiser or rng.choice(['evo', 'evo', 'surrogate']), multi=rng.random() < 0.2)
+    cfg.update({'scheme': rng.choice(['steady_state', 'steady_state', 'parameter_free', 'generational']),
+                'mutation_prob': rng.choice([0.2, 0.3, 0.4, 0.5]),
+                'crossover': rng.choice([['none'], ['none'], ['subtree']]), 'crossover_prob': rng.choice([0.0, 0.3]),
+                'mutation': rng.choice([['single_change', 'single_add'], ['single_add'], ['single_change', 'single_drop', 'single_add']]),
+                'initial': rng.choice(['three', 'mixed_sizes', 'two']), 'pop_size': rng.choice([3, 5, 5, 6]),
+                'num_of_generations': rng.choice([5, 6, 8]), 'early_stopping_iterations': None,
+                'elitism': rng.choice(['keep_n_best', 'keep_n_best', 'none', 'replace_worst']), 'diversity_check': -1})
+    kind = rng.choice(['raise', 'none', 'nan'])
+    n0 = len(INITIAL_GRAPHS[cfg['initial']])
+    faults = rng.choice([{'all_after': [n0 + rng.choice([0, 2, 5, 9]), kind]},
+                         {'all_after': [n0 + rng.choice([0, 2, 5, 9]), kind]},
+                         {'by_size_over': [rng.choice([3, 4]), kind]}])
+    cfg['objective']['faults'] = faults
+    cfg.pop('rule', None)
+    return cfg
+
+
+def reseeding_metric_config(rng):
+    """a deterministic metric that re-seeds the global generators on every call (like a model fitted with a fixed
+    random_state); identifiers come from the real os.urandom, so they must stay distinct whatever the metric does"""
+    cfg = random_config(rng, optimiser=rng.choice(['random_search', 'random_mutation', 'evo', 'pop_random_mutation']), multi=False)
+    cfg.update({'real_urandom': True, 'num_of_generations': rng.choice([4, 6]), 'early_stopping_iterations': None,
+                'keep_n_best': rng.choice([1, 1, 2])})
+    cfg['objective'] = {'metrics': [rng.choice(['neg_size', 'balance', 'label'])], 'multi': False,
+                        'faults': {'reseed': rng.choice([0, 1, 7])}}
+    if rng.random() < 0.6:
+        # steady improvement: every accepted mutant is larger (= better) than the archive member
+        cfg.update({'optimiser': 'random_mutation', 'mutation': rng.choice([['single_add'], ['single_add', 'single_change']]),
+                    'num_of_generations': 6, 'initial': 'single', 'max_depth': 6, 'crossover': ['none']})
+        cfg['objective']['metrics'] = ['neg_size']
+    cfg.pop('rule', None)
+    return cfg
+
+
+def lucky_few_config(rng):
+    """after the initial population almost every evaluation fails and only every 6th..9th call gets through: later
+    generations collect too few valid offspring (the too-few-valid-individuals stop), yet a lucky one may be the best"""
+    cfg = random_config(rng, optimiser=rng.choice(['evo', 'evo', 'surrogate', 'pop_random_mutation']), multi=rng.random() < 0.2)
+    n0 = len(INITIAL_GRAPHS['three'])
+    start = n0 + rng.choice([0, 3, 8, 15])
+    step = rng.choice([6, 7, 9])
+    kind = rng.choice(['raise', 'none', 'nan'])
+    cfg.update({'initial': 'three', 'pop_size': rng.choice([5, 6, 8]), 'num_of_generations': rng.choice([4, 6]),
+                'early_stopping_iterations': None, 'diversity_check': -1,
+                'scheme': rng.choice(['generational', 'steady_state', 'parameter_free'])})
+    cfg['objective']['metrics'][0] = rng.choice(['neg_size', 'neg_size', 'balance', 'label'])
+    cfg['objective']['faults'] = {'by_index': {str(i): kind for i in range(start, 600) if (i - start) % step != step - 1}}
     cfg.pop('rule', None)
     return cfg
 
